@@ -349,3 +349,58 @@ def tree_cases(prop, tier, hibernation_values=(False,), extra=None):
     if extra:
         extra(add)
     return cs
+
+
+def h_conditions(P, kinds, shape, hibernation=False):
+    """Every shipped stop condition returns exactly its documented predicate on an arbitrary flag state (symbolic flags, symbolic
+    limits), read from the real tree."""
+    from pyhms import stop_conditions as sc
+    from pyhms.stop_conditions.gsc import WeightingStrategy
+
+    w = build(P, kinds, shape, L=3, hibernation=hibernation, generations=1, mech="stub", warm=1)
+    tree = w.tree
+    go_symbolic(w)
+    w.gsc.symbolic = False
+    flags = {d.id: d._active for _, d in tree.all_demes}
+    P.oblige("gsc.RootStopped", iff(sc.RootStopped()(tree), lnot(tree.root._active)))
+    P.oblige("gsc.AllStopped", iff(sc.AllStopped()(tree), lnot(lor(*flags.values()))))
+    n = P.int("limit", 0, 400)
+    total = sum(d.n_evaluations for _, d in tree.all_demes)
+    P.oblige("gsc.SingularProblemEvalLimitReached", iff(sc.SingularProblemEvalLimitReached(n)(tree), total >= n))
+    P.oblige("gsc.FitnessEvalLimitReached.equal", iff(sc.FitnessEvalLimitReached(n)(tree), total >= n))
+    root_only = sum(d.n_evaluations for d in tree.levels[0])
+    P.oblige("gsc.FitnessEvalLimitReached.root", iff(sc.FitnessEvalLimitReached(n, weights=WeightingStrategy.ROOT)(tree), root_only >= n))
+    wts = [2, 0, 3][: len(tree.levels)]
+    weighted = sum(wts[lvl] * d.n_evaluations for lvl, d in tree.all_demes)
+    P.oblige("gsc.FitnessEvalLimitReached.weights", iff(sc.FitnessEvalLimitReached(n, weights=list(wts))(tree), weighted >= n))
+    m = P.int("mlimit", 0, 6)
+    P.oblige("usc.MetaepochLimit.tree", iff(sc.MetaepochLimit(m)(tree), tree.metaepoch_count >= m))
+    for _, d in tree.all_demes:
+        P.oblige("usc.MetaepochLimit.deme", iff(sc.MetaepochLimit(m)(d), (len(d._history) - 1) >= m))
+        kids = d.children
+        P.oblige("lsc.AllChildrenStopped", iff(sc.AllChildrenStopped()(d), land(len(kids) > 0, lnot(lor(*[k._active for k in kids])) if kids else False)))
+    P.oblige("usc.DontStop_DontRun", sc.DontStop()(tree) is False and sc.DontRun()(tree) is True)
+    k = P.int("nmeta", 0, 4)
+    step = tree.metaepoch_count
+    conds = []
+    for lvl in range(1, len(tree.levels)):
+        if len(tree.levels[lvl]) == 0:
+            conds.append(False)
+        for d in tree.levels[lvl]:
+            conds.append(land(lnot(d._active), lnot(step <= d.started_at + (len(d._history) - 1) + k)))
+    want = land(*conds) if conds else True
+    P.oblige("gsc.NoActiveNonrootDemes", iff(sc.NoActiveNonrootDemes(k)(tree), want))
+
+
+h_conditions.env_opts = {"rng": "real"}
+
+
+def condition_cases(tier):
+    cs = []
+    shapes = [(("ea", "cma"), [[0, 0]]), (("ea", "ea", "cma"), [[0, 0], [0]])]
+    if tier != "quick":
+        shapes += [(("de", "ea", "local"), [[0], [0, 0]]), (("ea", "cma"), [[]]), (("ea", "ea", "cma"), [[0], []])]
+    for kinds, shape in shapes:
+        cs.append(dict(name=f"conditions.{'-'.join(kinds)}.shape{shape}", fn=h_conditions, params=dict(kinds=list(kinds), shape=shape),
+                       profile="fp", budget_s=900, weight=5))
+    return cs
